@@ -364,6 +364,11 @@ func FIte(c bool, a, b float64) float64 {
 // -1 if there is none. Engine only: natively it returns -1 and harnesses guard its use with Engine().
 func PendingTimer() time.Duration { return -1 }
 
+// LiveGoroutines is the number of goroutines (other than the caller) that have not finished - running,
+// blocked or parked for ever (engine only; natively 0). Compared before and after an operation it shows
+// goroutines the operation left behind.
+func LiveGoroutines() int { return 0 }
+
 // StrictClock makes every later reading of the clock strictly greater than the previous one (engine only;
 // natively the real clock is used): harnesses whose oracle would be ambiguous for two events bearing the
 // same timestamp assume ties away and say so.
